@@ -293,23 +293,6 @@ func (p *pinner) doPinRecursive(ctx context.Context, c cid.Cid, fetch bool, name
 	p.lock.Lock()
 	defer p.lock.Unlock()
 
-	found, err := p.cidRIndex.HasAny(ctx, cidKey)
-	if err != nil {
-		return err
-	}
-	// Do not return immediately! Just remove the recursive pins for the current CID.
-	// This allows the process to continue and the pin to be re-added with a new name.
-	//
-	// TODO: remove this to support multiple pins per CID
-	if found {
-		_, err = p.removePinsForCid(ctx, c, ipfspinner.Recursive)
-		if err != nil {
-			return err
-		}
-	}
-
-	dirtyBefore := p.dirty
-
 	if fetch {
 		// temporary unlock to fetch the entire graph
 		p.lock.Unlock()
@@ -318,7 +301,7 @@ func (p *pinner) doPinRecursive(ctx context.Context, c cid.Cid, fetch bool, name
 		if p.pinnedProvider != nil {
 			opts = append(opts, merkledag.WithProvider(p.pinnedProvider))
 		}
-		err = merkledag.FetchGraph(ctx, c, p.dserv, opts...)
+		err := merkledag.FetchGraph(ctx, c, p.dserv, opts...)
 		p.lock.Lock()
 		if err != nil {
 			return err
@@ -326,28 +309,35 @@ func (p *pinner) doPinRecursive(ctx context.Context, c cid.Cid, fetch bool, name
 	}
 
 	// If autosyncing, sync dag service before making any change to pins
-	err = p.flushDagService(ctx, false)
+	err := p.flushDagService(ctx, false)
 	if err != nil {
 		return err
 	}
 
-	// Only look again if something has changed.
-	if p.dirty != dirtyBefore {
-		found, err := p.cidRIndex.HasAny(ctx, cidKey)
+	// Everything that can fail without changing the pin set (fetch, sync, index
+	// lookups) happens before the first change, so that a failed call leaves
+	// the existing pins untouched. The lock is held from here on, so the
+	// lookups stay valid until the new pin is added.
+	foundRecursive, err := p.cidRIndex.HasAny(ctx, cidKey)
+	if err != nil {
+		return err
+	}
+	foundDirect, err := p.cidDIndex.HasAny(ctx, cidKey)
+	if err != nil {
+		return err
+	}
+
+	// Do not return when already pinned! Remove the recursive pins for the
+	// current CID so that the pin is re-added with the new name.
+	//
+	// TODO: remove this to support multiple pins per CID
+	if foundRecursive {
+		_, err = p.removePinsForCid(ctx, c, ipfspinner.Recursive)
 		if err != nil {
 			return err
 		}
-		if found {
-			return nil
-		}
 	}
-
-	// TODO: remove this to support multiple pins per CID
-	found, err = p.cidDIndex.HasAny(ctx, cidKey)
-	if err != nil {
-		return err
-	}
-	if found {
+	if foundDirect {
 		_, err = p.removePinsForCid(ctx, c, ipfspinner.Direct)
 		if err != nil {
 			return err
